@@ -10,6 +10,7 @@ Inductive stmt : Type :=
 | SPanic                                  (* panic("...")                                      *)
 | SIfClosed (th el : list stmt)           (* if p.closed { th } else { el }                    *)
 | SIfFront (th el : list stmt)            (* if elem := p.queue.Front(); elem != nil {th} else {el} *)
+| SIfLen (n : nat) (th el : list stmt)    (* if p.queue.Len() == n { th } else { el }   (not in the current source) *)
 | SPushBack                               (* p.queue.PushBack(v)                               *)
 | SSignal                                 (* p.cond.Signal()                                   *)
 | SBroadcast                              (* p.cond.Broadcast()                                *)
